@@ -449,7 +449,9 @@ func specialCases(r *rec, g *te.Gen) {
 		v := reflect.ValueOf(ngapType.RANNodeName{Value: name})
 		r.roundtrip("RANNodeName", "special:name", v, "", false)
 	}
-	for _, shape := range [][2]int{{8, 0}, {8, 1}, {16, 2}, {100, 0}, {40, 3}} {
+	// (4: items of all four shapes - both identifiers, one, the other, none - in turn, in lists above 128 and above 256 items: an element
+	// must not inherit anything from the one decoded before it)
+	for _, shape := range [][2]int{{8, 0}, {8, 1}, {16, 2}, {100, 0}, {40, 3}, {130, 4}, {300, 4}} {
 		pdu := ngapType.NGAPPDU{Present: 1, InitiatingMessage: &ngapType.InitiatingMessage{}}
 		im := pdu.InitiatingMessage
 		im.ProcedureCode.Value = ngapType.ProcedureCodeNGReset
@@ -473,6 +475,13 @@ func specialCases(r *rec, g *te.Gen) {
 				it.AMFUENGAPID = &ngapType.AMFUENGAPID{Value: int64(i)}
 			case 2:
 				it.RANUENGAPID = &ngapType.RANUENGAPID{Value: int64(i)}
+			case 4:
+				if i%4 == 0 || i%4 == 1 {
+					it.AMFUENGAPID = &ngapType.AMFUENGAPID{Value: int64(i)}
+				}
+				if i%4 == 0 || i%4 == 2 {
+					it.RANUENGAPID = &ngapType.RANUENGAPID{Value: int64(1000 + i)}
+				}
 			case 3:
 				if i%13 == 0 {
 					it.AMFUENGAPID = &ngapType.AMFUENGAPID{Value: int64(i)}
